@@ -617,8 +617,9 @@ PROPS["C12"] = _ics20_prop("C12", 1, C12_CLAUSES, "channel state, messages and a
     "for a voucher of our counterparty's port/channel, with exactly one payout of the amount and the balance reduced by it; "
     "every accepted transfer emits exactly one packet (0 < amount <= 2^64-1, key, true sender, receiver, memo, block time + "
     "requested-or-default timeout) and raises outstanding and total_sent by the amount; every upgrade path keeps the "
-    "accounting invariant and a balance-rewriting migration leaves outstanding = actual escrow per key, so the identity "
-    "restarts from the migrated balance. Tie to the Rust: S_C12 + the identity with ghost counters on every step (measured).")
+    "accounting invariant and a balance-rewriting migration leaves outstanding = actual escrow per key; a migration raises "
+    "outstanding and total_sent by one and the same amount, hence over EVERY history, migrations included, "
+    "total_sent - outstanding = refunded + redeemed (c12_released_all_histories, c12_released_from_instantiate). Tie to the Rust: S_C12 + the identity with ghost counters on every step (measured).")
 PROPS["C18"] = _ics20_prop("C18", 2, C18_CLAUSES, "allow list, governance address, defaults and payout gas limits",
     "Axiom-free Coq theorems: every accepted execute call only loosens the allow list and changes it or the governance address "
     "only when made by the current governance address; IBC entry points and migrate never touch the allow list; migrate sets "
